@@ -76,11 +76,18 @@ package mapping
 //@   allocates
 
 // the canonical-key copy keeps every constraint and never writes the cached option object it copies from
+// ... and whenever a key canonicaliser is configured (conf: lower-casing), the key handed back for a field that carries tag
+// options IS the canonical form of the tag key - whatever those options are (callers look the value up under it)
 //@ func (u *Unmarshaler) parseOptionsWithContext
-//@   property C08
+//@   property C08 C17
 //@   flag callbacks_noheap nopanic:canonicalKey
 //@   results key, opts, err
 //@   ghost at after parseKeyAndOptions#0: P = ret1
+//@   ghost at after parseKeyAndOptions#0: K = ret0
+//@   ghost at entry: ck = ""
+//@   ghost at after canonicalKey#0: ck = ret
+//@   call canonicalKey#0: assert arg0 == K
+//@   ensures_local implies(err == nil && opts != nil && u.opts.canonicalKey != nil, key == ck)
 //@   ensures  implies(err == nil && opts != nil, P != nil && opts.Range == P.Range && sameSlice(opts.Options, P.Options) && opts.Default == P.Default && opts.FromString == P.FromString && opts.Inherit == P.Inherit && opts.EnvVar == P.EnvVar)
 //@   ensures  implies(err == nil && opts != nil && u.opts.fillDefault, opts.Optional == P.Optional)
 //@   modifies calls(u.opts.canonicalKey)
